@@ -181,23 +181,23 @@ CHECKS = {
 ADDENDA = {
     "C01": "Histories in one process: a parallel walk after an earlier parallel walk (state surviving a walk), including one in which the re-used position has four live children and callbacks take time - quick explores every schedule within 3 departures from the default order (bound named in the evidence), thorough within 6 and unbounded; nine of the 51 filters also run with a scheduling point inside each callback; one configuration with a foreign idle child process of the caller. Deep pyramids (depth 8-11, generic and TOAST) restricted to an apex just above the leaves; the complete depth-2 pyramid within a deviation bound in the quick tier. A depth-8 pyramid (16 384 tiles ready before any worker exists) under the default schedule, cut after 40 000 steps in quick and run to the end in thorough; filters that are not monotone along the path to a sub-pyramid apex. Filters given as callable objects whose truth value is False; a restricted pyramid whose documented depth attribute is raised afterwards. A one-worker depth-2 walk (four parents ready, a report queue of two) in the quick tier.",
     "C02": "Re-cascade history on one directory (leaves removed or made undefined between two cascades: stale parents must go); leaves of NaN and infinities; CLI and Builder entry points. Command-line and guessed-format cascades under a directory path containing dots; a cascade preceded by an input loader with non-default options; pure-black colour pixels. Half-precision colour tiles; 16-bit tiles in the quick tier with the stored type compared, not only the values. Half-precision colour pixels with NaN in a single channel. Three-level cascades over sparse chains of leaves in the quick tier (row directories of intermediate levels appear during the cascade).",
-    "C03": "Transform runs with distinguishable input/output pyramid arguments. Deep pyramids (depth 9/10) under an apex; 16-leaf / 21-tile item sets and a six-image multi-TAN run within a deviation bound in the quick tier; messages switched off and a foreign child process as circumstances. Virtual process identity (pid/ppid); inputs read from FITS files through the collection loader with a blank value (feeder-pickled later than the put); a reprojection function that cannot be pickled; 16 384-leaf and 5 461-tile item sets under the default schedule to a horizon; multi-WCS into a top-down format. Segments without any data ahead of one with data (multi-WCS); one multi-extension file listed once per extension (multi-TAN). A 1 023-leaf filtered pyramid under the default schedule; one multi-TAN processor object tiling twice in a row.",
-    "C04": "Lookups near tile corners on a deep lattice to depth 26 (28); tiles held while the other coordinate system is used. The pixel lookup as a fifth route; at depths 30-40 the four children against the parent's corners and side/diagonal midpoints, relative to the tile size. Every tile shown to a library lat/lon filter before it is used; lookups with a negative longitude. The traversal of a Pyramid (made before another one for the other coordinate system) as a further route. Every ordered pair of six (eight) enumerations alive at once and consumed in turn (alternation, 1:3, 3:1, every split point).",
+    "C03": "Transform runs with distinguishable input/output pyramid arguments. Deep pyramids (depth 9/10) under an apex; 16-leaf / 21-tile item sets and a six-image multi-TAN run within a deviation bound in the quick tier; messages switched off and a foreign child process as circumstances. Virtual process identity (pid/ppid); inputs read from FITS files through the collection loader with a blank value (feeder-pickled later than the put); a reprojection function that cannot be pickled; 16 384-leaf and 5 461-tile item sets under the default schedule to a horizon; multi-WCS into a top-down format. Segments without any data ahead of one with data (multi-WCS); one multi-extension file listed once per extension (multi-TAN). A 1 023-leaf filtered pyramid under the default schedule; one multi-TAN processor object tiling twice in a row. One filtered pyramid object counted and leaf-visited as a whole before it is restricted to a sub-pyramid and visited by two workers.",
+    "C04": "Lookups near tile corners on a deep lattice to depth 26 (28); tiles held while the other coordinate system is used. The pixel lookup as a fifth route; at depths 30-40 the four children against the parent's corners and side/diagonal midpoints, relative to the tile size. Every tile shown to a library lat/lon filter before it is used; lookups with a negative longitude. The traversal of a Pyramid (made before another one for the other coordinate system) as a further route. Every ordered pair of six (eight) enumerations alive at once and consumed in turn (alternation, 1:3, 3:1, every split point). Lookups of points ON the grid (the tiles' own corner points bit for bit, edge midpoints) at the tile's level and up to three levels deeper: the tile handed back carries the corners of the position it names and touches the point.",
     "C05": "sample_layer end to end, serial and with real worker processes, npy and FITS: the stored tiles hold the coordinates the sampler received (lon + 10 lat) and must equal the deeper tiles' centres row for row. A pyramid made for one coordinate system and traversed after another was made for the other one. Tolerance of 1e-3 pixel; pole-, seam- and equator-touching tiles to depth 26 (28) with a sparse comparison against the tiles create_single_tile builds eight levels deeper; tiles obtained by point lookup and shown to a library filter first. A pixel lookup landing in the tile immediately before its grid is requested; Builder.toast_base with an explicit coordinate system contradicting the planet flag. Filtered pyramids and sub-pyramids with an apex two levels down as traversal routes.",
     "C06": "Partial RGBA updates of PNG tiles holding opaque black pixels after a tile-allsky run with --black-to-transparent in the same process; the tile-allsky command itself; a sampler undefined over whole tiles on a fresh and on an existing directory. Builder.toast_base with and without a filter; infinities in the updating sampler; colour samplers into npy/FITS pyramids. Defined but faint (alpha 128 and 1) source pixels over opaque earlier data. A night-side RGBA sampler (whole tiles pure black and opaque). A sampler that converts the coordinate arrays it is handed in place, sampled twice in one process; sampling with a format= override over stale tiles of that format next to a file of the default format.",
-    "C07": "Footprints with the pole off-centre along the long axis of non-square images; one filter object used with both coordinate systems in turn. Long thin strips bending around a pole just outside the image; the Builder entry point end to end. A cut-out with an equal WCS filtered earlier in the process; coarse maps cut in thirds and fifths. FITS pyramids in the filtered-versus-unfiltered end-to-end comparison. Images whose values are exactly zero, or of both signs, end to end.",
-    "C08": "Re-tiling over a complete earlier tiling with an image undefined over a whole tile; parent tiling immutable under compute_for_subimage; blocks of infinities; full I32 range. Whole images and sub-tilings through Builder.prepare/execute_study_tiling; one StudyTiling object re-used for a second image of a wider mode. The thumbnail-first order of the tile-study command on PIL-backed images, including sizes of exactly the thumbnail's aspect ratio. Tilings and sub-tilings sent through pickle / deepcopy; PIL-backed images whose parity was flipped before tiling.",
-    "C09": "DATAMIN/DATAMAX cards of the deepest tiles compared between the two routes; inputs read from FITS files with blank borders marked by --blankval values 0.0, -999 and 0; mixed-parity collections with CD-matrix headers. Inputs contained in other inputs (every order); the serial route without a batch environment on a mosaic whose outer tile columns receive only undefined pixels. The multi-TAN stage fed from FITS files with a blank value under the scheduler; --blankval given as text. Three inputs over four tile columns where one tile receives only the undefined border of one input and data from two others; one multi-extension file listed once per extension. A decomposition with an input that has no defined pixel; inputs written to FITS files and read through toasty's SimpleFitsCollection.",
-    "C10": "Updaters contributing no defined pixel, and the non-clobbering TOAST sampler as an updater (whole-tile and partial coverage); file removals are part of the explored state. Tile positions whose digits run together to one string, one updater having touched the partner tile first; the parallel multi-TAN stage itself (lock markers must not be removed by another process). time.sleep, os.open, os.replace and os.rename are scheduling points and the scratch directory listing is part of the state, so a home-made marker-file lock is explored like the library's. filelock.FileLock virtualised as an OS-level lock and multiprocessing.parent_process per virtual process (a lock class chosen by process role is explorable); the top-level process updating alongside its children; the lock file named for a tile compared between independently started interpreters with different string-hash salts. filelock's removal of a non-empty ('unparsable') lock marker by a waiter as a timeout-class action; lock identity compared across interpreters with their own TMPDIR and a symlinked spelling of the pyramid path.",
-    "C11": "Second sampler kept alive between requests; consecutive requests of one shape with equal end points; read-only request arrays, which must come back unchanged. Axis lengths at the limits of the narrow integer types (127-129, 255-257; thorough 32767-32769, 65535, 65536); 1-D and large requests (300x300, 70001 points), every element judged. Maps in big-endian byte order and several widths, three samplers built from one map array answering in turn (the map must stay unchanged), requests in Fortran / transposed / mixed memory layout. Results of earlier requests kept and compared after later requests; whole-radian coordinates as int64 / int32 / float32 / read-only arrays against the layout formula.",
+    "C07": "Footprints with the pole off-centre along the long axis of non-square images; one filter object used with both coordinate systems in turn. Long thin strips bending around a pole just outside the image; the Builder entry point end to end. A cut-out with an equal WCS filtered earlier in the process; coarse maps cut in thirds and fifths. FITS pyramids in the filtered-versus-unfiltered end-to-end comparison. Images whose values are exactly zero, or of both signs, end to end. The per-chunk (filter, sampler) pairs of a chunked map all obtained first and then sampled in turn, or last chunk first.",
+    "C08": "Re-tiling over a complete earlier tiling with an image undefined over a whole tile; parent tiling immutable under compute_for_subimage; blocks of infinities; full I32 range. Whole images and sub-tilings through Builder.prepare/execute_study_tiling; one StudyTiling object re-used for a second image of a wider mode. The thumbnail-first order of the tile-study command on PIL-backed images, including sizes of exactly the thumbnail's aspect ratio. Tilings and sub-tilings sent through pickle / deepcopy; PIL-backed images whose parity was flipped before tiling. Image objects labelled with another default format than the pyramid they are tiled into (other row order included): the pyramid's format decides what is written.",
+    "C09": "DATAMIN/DATAMAX cards of the deepest tiles compared between the two routes; inputs read from FITS files with blank borders marked by --blankval values 0.0, -999 and 0; mixed-parity collections with CD-matrix headers. Inputs contained in other inputs (every order); the serial route without a batch environment on a mosaic whose outer tile columns receive only undefined pixels. The multi-TAN stage fed from FITS files with a blank value under the scheduler; --blankval given as text. Three inputs over four tile columns where one tile receives only the undefined border of one input and data from two others; one multi-extension file listed once per extension. A decomposition with an input that has no defined pixel; inputs written to FITS files and read through toasty's SimpleFitsCollection. Inputs with an undefined band on one side only (top, bottom, left or right), a little thicker than the share of the mosaic held by the outermost tile row / column.",
+    "C10": "Updaters contributing no defined pixel, and the non-clobbering TOAST sampler as an updater (whole-tile and partial coverage); file removals are part of the explored state. Tile positions whose digits run together to one string, one updater having touched the partner tile first; the parallel multi-TAN stage itself (lock markers must not be removed by another process). time.sleep, os.open, os.replace and os.rename are scheduling points and the scratch directory listing is part of the state, so a home-made marker-file lock is explored like the library's. filelock.FileLock virtualised as an OS-level lock and multiprocessing.parent_process per virtual process (a lock class chosen by process role is explorable); the top-level process updating alongside its children; the lock file named for a tile compared between independently started interpreters with different string-hash salts. filelock's removal of a non-empty ('unparsable') lock marker by a waiter as a timeout-class action; lock identity compared across interpreters with their own TMPDIR and a symlinked spelling of the pyramid path. Updates given up half-way (the body of the `with` block raises) next to successful ones, on tiles that do not exist yet: they contribute nothing and take nothing away.",
+    "C11": "Second sampler kept alive between requests; consecutive requests of one shape with equal end points; read-only request arrays, which must come back unchanged. Axis lengths at the limits of the narrow integer types (127-129, 255-257; thorough 32767-32769, 65535, 65536); 1-D and large requests (300x300, 70001 points), every element judged. Maps in big-endian byte order and several widths, three samplers built from one map array answering in turn (the map must stay unchanged), requests in Fortran / transposed / mixed memory layout. Results of earlier requests kept and compared after later requests; whole-radian coordinates as int64 / int32 / float32 / read-only arrays against the layout formula. A result of the wrong shape is a violation in every request family (small colour maps of 1-4 rows are part of the map shapes).",
     "C12": "A lookup in the other coordinate system immediately before each judged one; deep descents to depth 14/20/23/24 with a tolerance of 1e-3 tile widths plus the double-precision resolution of a tile side; pixel clause at 2-3 turns. 384 points 1-3 degrees from the poles near the quadrant meridians for the pixel clause. Sub-ulp negative, denormal and signed-zero longitudes; points within 1e-6 to 1e-9 rad of the poles (tile clause). Coordinates given as Python / numpy integers, 0-d arrays and 32-bit floats; queries that are bit for bit the centre of a pixel.",
     "C13": "One-instance histories (count, restrict, count again; a refused subpyramid() then further use); geometry of the tiles handed to visit_leaves, both coordinate systems. Deep pyramids (depth 8-12) under apexes 0-2 levels above the leaves; a pyramid traversed after another one was made for the other coordinate system. A traversal whose callback asks the same pyramid for its counts; toast.count_tiles_matching_filter; filters not monotone along the apex path. Falsy callable filters; a restricted pyramid one level deeper (depth attribute changed). One pyramid object counted, then walked and leaf-visited by two worker processes in both orders (stateful exploration; deviation bound 3 in the quick tier); children lists mutated by the caller between two questions.",
-    "C14": "One Builder cascading three times while the base layer's range widens and narrows; an all-NaN leaf file saved through Image.save right after a tile of another pyramid; constant leaves; multi-image TOAST FITS tiling. Data of magnitude 1e-9; a pyramid mixing float64 and float32 leaves. A leaf written through another PyramidIO between two cascades of one Builder. A leaf re-written with unchanged 2x2 block means and a far wider range, cascaded again; the depth-3 pyramid cascaded in pieces through sub-pyramids.",
+    "C14": "One Builder cascading three times while the base layer's range widens and narrows; an all-NaN leaf file saved through Image.save right after a tile of another pyramid; constant leaves; multi-image TOAST FITS tiling. Data of magnitude 1e-9; a pyramid mixing float64 and float32 leaves. A leaf written through another PyramidIO between two cascades of one Builder. A leaf re-written with unchanged 2x2 block means and a far wider range, cascaded again; the depth-3 pyramid cascaded in pieces through sub-pyramids. Leaves holding integer pixels (int16, int32, uint8), whose range cards FITS writes as integers.",
     "C15": "Histories preceded by loading an input image through the command-line loader with every option away from its default; explicit format= differing from the pyramid default; infinities as defined values. Every sequence of up to 3 (4) operations on ONE buffer object with is_completely_masked and write_image judged after each step. An update that leaves the tile entirely undefined (earlier file must go); source pixels fainter than the destination. Rectangles starting at the origin and one pixel short of covering a dirty buffer; write_image(mode=RGB) of an entirely transparent tile. Every sequence of up to 4 (5) operations {write, clear, fill, partial fill, partial update, view as PIL / array} on ONE caller-held Image object, the tile read back after every write; two or three worker processes of one leaf visit storing defined and entirely undefined tiles of one pyramid, with file creation and directory removal as scheduling points.",
     "C16": "ensure/flip/ensure histories, PIL-backed images, exactly-zero matrix entries, a WCS instance shared by two images. Latitude-first world axes; one WCS instance shared by objects of three different heights, each flipped. A WCS object carrying the array size of another file; pixel scales of 0.1 mas and 7 micro-arcseconds; sky positions compared to a thousandth of a pixel. Triangular matrices with exact zeros in CD and CDELT+PC form; non-default LONPOLE / LATPOLE.",
-    "C17": "Pipeline with the LXY scheme and a single-tile image; a faulted first call followed by reuse of the directory. Override after a deeper pyramid of a changed input (TAN and TOAST). tile_fits with every default (output directory derived from the input name, method detected); the Builder study route into pyramids whose format differs from the image's own. tile_fits with two worker processes (fresh and reused). The tile-wwtl workflow with JPEG and PNG layers.",
+    "C17": "Pipeline with the LXY scheme and a single-tile image; a faulted first call followed by reuse of the directory. Override after a deeper pyramid of a changed input (TAN and TOAST). tile_fits with every default (output directory derived from the input name, method detected); the Builder study route into pyramids whose format differs from the image's own. tile_fits with two worker processes (fresh and reused). The tile-wwtl workflow with JPEG and PNG layers. Histories that re-tile the directory from ANOTHER input with override=True and then reuse it (alphabet fresh / reuse / override / override-other; single-input TAN histories four calls deep in the quick tier, the search split over processes by the second call).",
     "C18": "Recovery on the same manager object as well as a fresh one; OSError raised inside the store's own copy. Two fault families: process death (not catchable) and transfer errors (OSError the code may catch), judged by the state left behind. Process death inside the store's own copy, followed by a re-run. A zero-length file in the file set.",
-    "C19": "A foreign idle child process of the caller while a walk worker fails or is killed (multiprocessing.active_children virtualised); a six-image multi-TAN run failing on the first image (more images than queue and workers absorb); read faults inside the cascade. Messages switched off for the process as a circumstance of every stage. One failing item per stage explored a second time in a child interpreter started with -O; a 16-leaf visit whose dispatcher finds the queue full after a worker died. Five inputs with a persistent failure (multi-WCS); a depth-3 transform with two workers failing on an early tile. Every item failing with more items than the bounded work queue holds, and with a pipe that holds one item; an error object that cannot be pickled.",
+    "C19": "A foreign idle child process of the caller while a walk worker fails or is killed (multiprocessing.active_children virtualised); a six-image multi-TAN run failing on the first image (more images than queue and workers absorb); read faults inside the cascade. Messages switched off for the process as a circumstance of every stage. One failing item per stage explored a second time in a child interpreter started with -O; a 16-leaf visit whose dispatcher finds the queue full after a worker died. Five inputs with a persistent failure (multi-WCS); a depth-3 transform with two workers failing on an early tile. Every item failing with more items than the bounded work queue holds, and with a pipe that holds one item; an error object that cannot be pickled. An input image that cannot be LOADED: the collection raises in the dispatching process between two hand-offs while workers are alive (multi-TAN and multi-WCS, every position of the bad input).",
     "C20": "The `toasty view --tile-only` and `toasty tile-multi-tan` commands; file names whose sort order is the reverse of the input order; cubes and repeated paths. Two-digit HDU indices in per-file lists; a 2-D HDU whose alternate WCS declares a virtual third axis. The same collection inspected again after its descriptions and images were flipped by a consumer. End-relative scalar indices over files of different lengths; index 0 on files whose primary HDU is empty (must be refused, not replaced by another HDU).",
 }
 
